@@ -375,8 +375,17 @@ def check(run: Run) -> None:
             return [(Term(name, ()), st)]
         return f
 
+    def strptime_kind(I2, recv, name, args, kwargs, st, node):
+        # whichever helper ends up parsing: the FORMAT handed to strptime says which reading of the text is taken
+        if recv.cls.startswith("ext:datetime") and name == "strptime" and len(args) == 2 and isinstance(args[1], str):
+            return [(Term("long" if "-" in args[1] else "short", ()), st)]
+        return None
+
+    def term_method(I2, recv, name, args, kwargs, st, node):
+        return [(recv, st)] if name == "date" and not args else None
+
     I3 = Interp(model, probes={"zorg.shared.dates.from_short_date_spec": dprobe("short"), "zorg.shared.dates._from_long_date_spec": dprobe("long"),
-                               "zorg.shared.dates._from_relative_date_spec": dprobe("relative")})
+                               "zorg.shared.dates._from_relative_date_spec": dprobe("relative"), "method:*": strptime_kind, "method:term": term_method})
     d = lambda i: CharSet(DIG, sym=i)
     shapes = {
         "YYMMDD": (SeqStr(tuple(d(i) for i in range(6))), "short"),
